@@ -14,6 +14,9 @@ type ExpectOutput struct {
 	Pattern  interface{} `json:"pattern"`
 	Guard    *Prog       `json:"guard"`
 	Inverted bool        `json:"inverted,omitempty"`
+	// Stale: the output arrives with diagnostics ("bs") left by an earlier run of the session, as a
+	// re-used Session value or a session file written back after a run carries them
+	Stale bool `json:"stale,omitempty"`
 }
 
 type ExpectStep struct {
@@ -54,6 +57,9 @@ func (g *G) ExpectCase() ExpectCase {
 			o := ExpectOutput{Pattern: DeepCopy(expectPatterns[g.Intn(len(expectPatterns))])}
 			if g.P(1, 5) {
 				o.Inverted = true
+			}
+			if g.P(1, 8) {
+				o.Stale = true
 			}
 			if g.P(1, 4) {
 				gd := &Prog{Lang: "es", Ret: "bs", Ops: [][]interface{}{}}
